@@ -168,7 +168,9 @@ func c17qRun(srv *c17qServer, raw *conformancev1.RawHTTPRequest) (obs c17qObs) {
 	}
 	wait := 20 * time.Second
 	if err != nil {
-		wait = 2 * time.Second
+		// RoundTrip failed: either nothing was sent or the handler has run already; a short
+		// grace period only decides between the keys nothing-arrived and round-trip-error
+		wait = 500 * time.Millisecond
 	}
 	select {
 	case rec := <-srv.seen:
